@@ -105,8 +105,9 @@ def run(tier):
     seed = chk.seed + 77
     envs = [("t1", {"NUMBA_NUM_THREADS": "1"}), ("t2", {"NUMBA_NUM_THREADS": "2"}), ("t3", {"NUMBA_NUM_THREADS": "3"}),
             ("t8", {"NUMBA_NUM_THREADS": "8"}), ("t16", {"NUMBA_NUM_THREADS": "16"}), ("poff", {"PANDORA_NUMBA_PARALLEL": "False", "NUMBA_NUM_THREADS": "4"})]
+    envs.append(("rev", {"NUMBA_NUM_THREADS": "3", "C18_ORDER": "reverse"}))
     if tier == "quick":
-        envs = [e for e in envs if e[0] in ("t1", "t3", "t16", "poff")]
+        envs = [e for e in envs if e[0] in ("t1", "t3", "t16", "poff", "rev")]
     with ThreadPoolExecutor(max_workers=len(envs)) as ex:
         results = dict(zip([e[0] for e in envs], ex.map(lambda e: spawn(seed, nprob, e[1]), envs)))
     ref_env = "t1"
@@ -162,7 +163,11 @@ def run(tier):
                           "digests": [results[ref_env][f"{i}:{a}"]["all"], dg]})
             chk.count(("history", i, shape, x, a))
             if not (deep_equal(left, l0) and deep_equal(right, r0)):
-                diffs = [v for v in list(left.data_vars) + list(left.coords) if v in l0 and not np.array_equal(np.asarray(left[v].data), np.asarray(l0[v].data), equal_nan=True)]
+                def differs(x, y):
+                    x, y = np.asarray(x), np.asarray(y)
+                    return x.shape != y.shape or not (np.array_equal(x, y, equal_nan=True) if x.dtype.kind == "f" else np.array_equal(x, y))
+                diffs = [f"{sd}:{v}" for sd, cur, old in (("left", left, l0), ("right", right, r0)) for v in list(cur.data_vars) + list(cur.coords)
+                         if v not in old or differs(cur[v].data, old[v].data)]
                 attr_diff = sorted(set(map(str, left.attrs)) ^ set(map(str, l0.attrs))) + sorted(set(map(str, right.attrs)) ^ set(map(str, r0.attrs)))
                 chk.violation("inputs_unmodified", {"pipeline": a, "part": "attributes" if attr_diff and not diffs else "data"},
                               {"changed_variables": diffs, "attribute_keys_added_or_removed": attr_diff}, f"pipeline {a} modified the caller's datasets: vars {diffs} attrs {attr_diff}")
